@@ -44,6 +44,9 @@ func (a c14Attr) Source() string {
 			switch p.lit.K {
 			case "str":
 				v = "'" + p.lit.S + "'"
+				if strings.Contains(p.lit.S, "'") { // a literal holding an apostrophe is written in double quotes (&quot; inside the attribute)
+					v = "&quot;" + p.lit.S + "&quot;"
+				}
 			case "bool":
 				v = fmt.Sprint(p.lit.B)
 			default:
@@ -186,7 +189,9 @@ func runC14(r *Run) {
 		// ... and paths of each kind that lead nowhere
 		"list.9", "m.is-none", "lm.7.on", "nope-x", "zz.0", "m.nokey.deeper"}
 	names := []string{"title", "href", "class", "style", "data-x", "id", "disabled"}
-	lits := []Val{VStr("red"), VStr(""), VBool(true), VBool(false), VInt("int", 12), VInt("int", 0)}
+	lits := []Val{VStr("red"), VStr(""), VBool(true), VBool(false), VInt("int", 12), VInt("int", 0),
+		// string literals that hold the separators of the object syntax: a comma, a colon, a quote of the other kind, braces
+		VStr("a, b"), VStr("it's, ok"), VStr("x: y"), VStr("O'Reilly Sans, serif"), VStr("{a}")}
 	mkObj := func(key string) c14Attr {
 		a := c14Attr{kind: "obj", key: key}
 		keys := []string{"on", "off", "x-y", "big"}
